@@ -38,6 +38,16 @@ if os.environ.get("VERIF_C13_2_APPLIED") in ("0", "1"):
 C13_3_APPLIED = True
 if os.environ.get("VERIF_C13_3_APPLIED") in ("0", "1"):
     C13_3_APPLIED = os.environ["VERIF_C13_3_APPLIED"] == "1"
+# SWITCH  C13_4_APPLIED — flip to True in the same commit that applies fixes/C13-4-oblique-peak-refinement.diff to /repo.
+# Anisotropic / obliquely elongated content (tilted correlation peak).  False (unrepaired code): the estimators refine with two 1-D
+# parabolas through the centre sample, which do not peak at the 2-D maximum of a tilted ridge; the torch half-pixel estimate is then off
+# by up to 1.2 px, its +-0.75 px upsampled patch misses the peak and the result is off by up to 0.46 px at every factor >= 3 (2..30 % of
+# random pairs at anisotropy >= 3, 20..70 deg), the numpy estimator exceeds 1/up marginally (<= 1.4 x) at anisotropy >= 4.  The cases are
+# generated either way; False: sub-pixel shifts of this class are judged against a gross-error bound of 1.5 px at every factor (integer shifts stay exact), True: the usual 1/up.
+# VERIF_C13_4_APPLIED=0/1 overrides.
+C13_4_APPLIED = True
+if os.environ.get("VERIF_C13_4_APPLIED") in ("0", "1"):
+    C13_4_APPLIED = os.environ["VERIF_C13_4_APPLIED"] == "1"
 # ======================================================================================================================
 ANCHOR_FILES = [
     "quantem/core/utils/imaging_utils.py",
@@ -52,11 +62,17 @@ RULE = (
     "max_shift (radius >= |s|+2.5 px, and a radius within 0..1 px of the admitted shift), and upsample_factor / max_shift passed as every accepted scalar type "
     "(Python int/float, np.int32/int64/float64 scalars, elements of integer arrays, 0-d arrays, 0-d tensors) which must reproduce the Python-int result; buffer-reuse histories for both backends (the same "
     "array/tensor objects refilled between 7..10 calls through copy_, .data writes, NumPy memory aliased by torch.from_numpy, or views of a larger buffer: reference only, moving only, both, reference := moving, swapped roles, "
-    "interleaved calls on other tensors of the same / another shape; every call judged against its own truth); float32 images on a background of 100..1000 x the contrast; plus call-site cases (tomography stack alignment, direct-ptychography reference/pairwise shifts, "
+    "interleaved calls on other tensors of the same / another shape; every call judged against its own truth); float32 images on a background of 100..1000 x the contrast; anisotropic / obliquely elongated band-limited content (streaky random-phase texture or 2..5 elongated blobs, "
+    "feature sigma 1..2.2 px x anisotropy 1.5..5, long axis at +-20..70 deg to the rows, shapes 44..80) x both backends x every factor x shift class{int,int_far,sub,sub_far,half}, all estimator oracles; plus call-site cases (tomography stack alignment, direct-ptychography reference/pairwise shifts, "
     "align_vbf_stack_multiscale in reference / pairwise mode x 1..3 bin levels x running average x initial_shifts none / zero / non-zero with a pre-shifted stack). "
     "non-trivial = applied shift != 0; distinct = (kind, backend, factor, shift class, shape class, dtype, family)"
 )
 ASSUMPTIONS = [
+    "anisotropic / obliquely elongated content has a unique correlation peak (the auto-correlation of the features, a tilted Gaussian ridge) and is inside the domain; "
+    "upsampled estimates (numpy up >= 2, torch up >= 3) are judged with the usual 1/up and integer shifts with the usual working-precision bound; the property leaves "
+    "'the parabolic-refinement accuracy when not upsampling' unspecified and two 1-D parabolas cannot locate a tilted peak, so sub-pixel shifts on the paths that do not "
+    "upsample (numpy up = 1, torch up <= 2) are judged against a gross-error bound of 1.5 px there (measured <= 1.03 px numpy / 1.21 px torch on the unrepaired code, "
+    "0.58 / 0.81 px with fixes/C13-4); the near-radius max_shift calls of these cases admit 2 px more (the integer maximum of a tilted ridge lies up to 1.3 px from the true shift)",
     "single-precision images on a background (mean >> contrast) are part of the domain ('image contents with a unique correlation peak'); until fixes/C13-3 is applied "
     "(switch C13_3_APPLIED) the torch estimators are known to fail there (not judged) and the numpy estimator is judged for up >= 2 at mean = 100..110 x contrast with an "
     "integer-shift bound of 0.01 px and swap antisymmetry within the accuracy bound; with the fix both backends are judged at mean = 100..1000 x contrast with the usual float32 bounds",
@@ -127,6 +143,13 @@ def plan(tier, seed):
         for be, up, sc in itertools.product(BACKENDS, UPS, ["int", "sub", "int_far", "sub_far"]):
             k += 1
             specs.append({"kind": "est", "backend": be, "up": up, "sclass": sc, "shape": SHAPES[(k + rep) % len(SHAPES)], "dtype": "float32", "family": "env" if (be == "torch" and up <= 2) else ["gauss", "env"][(k + rep) % 2], "pedestal": True})
+    areps = 2 if tier == "quick" else 40
+    k = 0
+    for rep in range(areps):  # anisotropic / obliquely elongated content: the correlation peak is a tilted ridge
+        for be, up, sc in itertools.product(BACKENDS, UPS, ["int", "sub", "sub_far", "int_far", "half"]):
+            k += 1
+            dt = (["float64", "float32"] if be == "numpy" else ["float32", "float64"])[(k // 2 + rep) % 2]
+            specs.append({"kind": "est", "backend": be, "up": up, "sclass": sc, "shape": SHAPES[(k + rep) % len(SHAPES)], "dtype": dt, "family": ["oblique_texture", "oblique_blobs"][(k + rep) % 2], "aniso": True})
     mreps = 36 if tier == "quick" else 720
     for r in range(mreps):  # direct-ptychography multi-scale stack alignment with the optional arguments its real caller passes
         specs.append({"kind": "multiscale", "mode": ["reference", "pairwise"][r % 2], "init": ["guess", "none", "guess", "zero"][(r // 2) % 4], "levels": [[1], [2, 1], [3, 1], [3, 2, 1]][(r // 3) % 4], "sclass": ["int", "sub"][(r // 5) % 2], "up": [4, 8, 1, 16, 2][(r // 7) % 5], "dtype": ["float32", "float64"][(r // 4) % 2], "running_average": (r // 11) % 3 == 0})
@@ -331,12 +354,20 @@ def rel_l2(a, b):
 class J:
     """Judging context of one case: fixed classifier fields + tolerance-class aware ctx.close."""
 
-    def __init__(self, ctx, backend, dtype, up, kind, pedestal=False, **extra):
+    def __init__(self, ctx, backend, dtype, up, kind, pedestal=False, aniso=False, **extra):
         self.ctx, self.kind, self.up = ctx, kind, up
         self.prec = prec_of(backend, dtype)
         self.common = dict(backend=backend, dtype=dtype, up=up, skind=kind, upsampled=bool(up > (1 if backend == "numpy" else 2)), **extra)
         self.tol = tol_shift(backend, dtype, up, kind)  # accuracy claim for this shift class
         self.tol0 = tol_shift(backend, dtype, up, "int")  # "exactly" at working precision
+        if aniso:
+            self.common["content_class"] = "anisotropic"
+            self.common["estimator"] = backend
+            if kind == "sub" and not self.common["upsampled"]:
+                self.tol = 1.5  # no upsampling: 1-D parabolas on a tilted peak, accuracy not specified by the property -> gross errors only
+            elif kind == "sub" and not C13_4_APPLIED:
+                self.tol = 1.5  # unrepaired code: known to miss 1/up on tilted peaks (fixes/C13-4) -> gross errors only until the fix is applied
+                ctx.count("relaxed:anisotropic_subpixel_before_fix_C13-4")
         if pedestal:
             self.prec = "f32ped"
             self.common["pedestal"] = True
@@ -380,7 +411,7 @@ def _run_numpy(spec, idx, ctx, rng, shape, s, im, ref, bw):
     iu = ctx.state["iu"]
     ccs = iu.cross_correlation_shift
     up, dtype, kind = spec["up"], spec["dtype"], skind(spec["sclass"])
-    j = J(ctx, "numpy", dtype, up, kind, pedestal=bool(spec.get("pedestal")), family=spec["family"])
+    j = J(ctx, "numpy", dtype, up, kind, pedestal=bool(spec.get("pedestal")), aniso=bool(spec.get("aniso")), family=spec["family"])
     itol = 1e-2 if spec.get("pedestal") else tol_image(dtype)  # relative to the contrast: float32 rounding of the background itself is 1e-7 x 1e3
     a = ref.astype(dtype)
     b = im.astype(dtype)
@@ -446,7 +477,7 @@ def _run_numpy(spec, idx, ctx, rng, shape, s, im, ref, bw):
     # the DFT-upsampled refinement (radius 1.5 px, unmasked correlation) absorbs it: measured <= 0.09 (up 2) ... 0.003 (up 64).
     # Judged: finite result, 1/up for up > 1 (all shift classes), gross-error bound 1.5 px for up = 1.
     corners = [float(np.hypot(p, q)) for p in {np.floor(sw[0]), np.ceil(sw[0])} for q in {np.floor(sw[1]), np.ceil(sw[1])}]
-    ms_e = max(corners) + float(rng.uniform(0.02, 1.0))
+    ms_e = max(corners) + float(rng.uniform(0.02, 1.0)) + (2.0 if spec.get("aniso") else 0.0)
     if C13_2_APPLIED:  # repaired code: an admitted shift is estimated exactly as without max_shift -> usual bounds
         tol_e, k_e = j.tol, kind
     else:
@@ -485,7 +516,7 @@ def _run_torch(spec, idx, ctx, rng, shape, s, im, ref, bw):
     iu = ctx.state["iu"]
     torch = ctx.state["torch"]
     up, dtype, kind = spec["up"], spec["dtype"], skind(spec["sclass"])
-    j = J(ctx, "torch", dtype, up, kind, pedestal=bool(spec.get("pedestal")), family=spec["family"])
+    j = J(ctx, "torch", dtype, up, kind, pedestal=bool(spec.get("pedestal")), aniso=bool(spec.get("aniso")), family=spec["family"])
     tdt = getattr(torch, dtype)
     A = torch.tensor(np.asarray(ref, dtype=np.float64), dtype=tdt)
     B = torch.tensor(np.asarray(im, dtype=np.float64), dtype=tdt)
@@ -520,8 +551,26 @@ def _run_est(spec, idx, ctx):
         ctx.nontrivial(("est-pedestal-skipped",), False)
         return
     shape = gen_shape(rng, spec["shape"])
+    if spec.get("aniso"):
+        shape = (shape[0] + 32, shape[1] + 32)  # 44..80: room for features of up to 11 px
     s = gen_shift(rng, spec["sclass"], shape)
     bw_max = 0.7 if half_pixel_rounding(spec["backend"], spec["up"], skind(spec["sclass"])) else 0.9
+    if spec.get("aniso"):
+        an = float(rng.uniform(1.5, 5.0))
+        if rng.random() < 0.4:
+            an = float(rng.uniform(3.5, 5.0))
+        ang = float(rng.uniform(20.0, 70.0)) * (1.0 if rng.random() < 0.5 else -1.0)
+        if rng.random() < 0.4:  # shallow / steep ridges: the integer maximum lies farthest from the true shift
+            ang = float(rng.choice([-1.0, 1.0])) * float(rng.choice([rng.uniform(20.0, 30.0), rng.uniform(60.0, 70.0)]))
+        sig = min(float(rng.uniform(1.0, 2.2)), min(shape) / (7.5 * an))
+        bw = float(rng.uniform(0.6, 0.9))
+        im = T.oblique_image(rng, shape, bw, sig, an, ang, "texture" if spec["family"] == "oblique_texture" else "blobs", float(rng.choice([0.0, 1.0, 3.0])), nblobs=int(rng.integers(2, 6)))
+        ref = T.translate(im, s)
+        run = _run_numpy if spec["backend"] == "numpy" else _run_torch
+        r, d = run(spec, idx, ctx, rng, shape, s, im, ref, bw)
+        ctx.nontrivial(("est-aniso", spec["backend"], spec["up"], spec["sclass"], spec["shape"], spec["dtype"], spec["family"]), bool(np.any(s != 0)))
+        ctx.observe(shape=list(shape), applied=s.tolist(), returned=np.asarray(r).tolist(), error=None if d is None else d.tolist(), bandwidth=bw, content_class="anisotropic", anisotropy=an, angle_deg=ang, sigma_short=sig)
+        return
     im, ref, bw = gen_pair(rng, shape, s, spec["family"], spec["dtype"] if spec["backend"] == "numpy" else "float64", bw_max, pedestal=bool(spec.get("pedestal")))
     if spec["backend"] == "numpy":
         r, d = _run_numpy(spec, idx, ctx, rng, shape, s, im, ref, bw)
